@@ -159,18 +159,19 @@ def ShortOK (cfg : Cfg) (k : Skel) : EvQ → Prop
 /-- which round-3 events are covered INSIDE a task window.
     Import window: node events (extensions, reorganisations to any branch), unconfirmed transactions, crashes ANYWHERE,
     handler steps for ANY queued notification (stale ones included), CreateWallet, NewAddress of the other wallets.
-    Removal window: node events, crashes while no notification is pending; no handler step (C08 has no follower-step
-    theorem for a partly deleted wallet), no unconfirmed transaction (C08's `pendOff`), no CreateWallet / NewAddress. -/
+    Removal window: node events, crashes while no notification is pending, CreateWallet (another name), NewAddress of
+    the other wallets, unconfirmed transactions that are not in a chain the node has had (C08's `pendOff`); no handler
+    step (C08 has no follower-step theorem for a partly deleted wallet). -/
 def WindowOK (k : SkelT) : EvQ → Prop
-  | .create _ =>
+  | .create w2 =>
     match k.busy with
-    | some (.rem _) => False
+    | some (.rem w) => w2 ≠ w      -- the name of the wallet being removed is not given to a new wallet inside the window
     | _ => True
   | .newAddr w1 _ =>
     match k.busy with
     | none => True
     | some (.imp w) => w1 ≠ w      -- NewAddress is refused for the wallet being restored (UseWallet wants it ready)
-    | some (.rem _) => False
+    | some (.rem w) => w1 ≠ w      -- … and for the wallet being removed
   | .handle =>
     match k.busy with
     | some (.rem _) => False
@@ -179,9 +180,9 @@ def WindowOK (k : SkelT) : EvQ → Prop
     match k.busy with
     | some (.rem _) => k.queue = []
     | _ => True
-  | .recvTx _ =>
+  | .recvTx tx =>
     match k.busy with
-    | some (.rem _) => False
+    | some (.rem _) => ∀ c ∈ k.base.hist, tx.id ∉ idsOf (occs c)   -- not a transaction of a chain the node has had
     | _ => True
   | _ => True
 
